@@ -101,41 +101,39 @@ _ADX = ('adx = x1-x0 over consecutive posts in sorted order; floor1_unpack rejec
         '(R02.3 floor1_unpack:unique-posts), so adx >= 1')
 _STR = 'caller-supplied C strings (API arguments, not stream data): the sum of two object sizes cannot exceed the address space'
 ASSUME = {
-    ('_01inverse', 'div:(((<(<($-.begin)>/<.grouping>)>+<<$>.phrasebook.dim>)-1)/<<$>.phrasebook.dim>)'): _PPW,
-    ('res2_inverse', 'div:(((<(<($-.begin)>/<.grouping>)>+<<$>.phrasebook.dim>)-1)/<<$>.phrasebook.dim>)'): _PPW,
-    ('_01inverse', 'sub:<<$>.info>.secondstages[<__builtin_alloca(($*8))>[$][$][$]]'): _DIGIT,
-    ('res2_inverse', 'sub:<<$>.info>.secondstages[<_vorbis_block_alloc($,(<((($+$)-1)/$)>*8))>[$][$]]'): _DIGIT,
-    ('_book_maptype1_quantvals', 'div:(.entries/$)'):
+    ('_01inverse', 'div:<<$>.phrasebook.dim>'): _PPW,
+    ('res2_inverse', 'div:<<$>.phrasebook.dim>'): _PPW,
+    ('_01inverse', 'sub:.secondstages'): _DIGIT,
+    ('res2_inverse', 'sub:.secondstages'): _DIGIT,
+    ('_book_maptype1_quantvals', 'div:$'):
         'vals is clamped to >= 1 before the search and is decremented only when vals^dim > entries >= 1, which is false for vals == 1',
-    ('_book_maptype1_quantvals', 'div:(9223372036854775807/($+1))'): 'vals >= 1 (see the other divisor), so vals+1 >= 2',
-    ('_book_unquantize', 'div:($/$)'):
+    ('_book_maptype1_quantvals', 'div:($+1)'): 'vals >= 1 (see the other divisor), so vals+1 >= 2',
+    ('_book_unquantize', 'div:$'):
         'indexdiv is 1 multiplied by quantvals once per dimension; the k-loop runs only for dim >= 1, where quantvals = '
         '_book_maptype1_quantvals(b) >= 1, and quantvals^dim <= entries < 2^24 so the int product does not wrap',
-    ('_book_unquantize', 'div:(($/$)%<_book_maptype1_quantvals($)>)'):
+    ('_book_unquantize', 'div:<_book_maptype1_quantvals($)>'):
         'inside the k<dim loop, reached only with entries >= 1 and dim >= 1, where _book_maptype1_quantvals returns >= 1',
     ('_vorbis_block_alloc', 'alloc:malloc(.localalloc)'):
         'block-local arena: localalloc is the largest single request of this packet; every request is an R02.2 calling context',
     ('_vorbis_block_ripcord', 'alloc:realloc(.localstore,(.totaluse+.localalloc))'):
         'block-local arena: totaluse is the sum of the requests of one packet decode, each bounded by its calling context',
-    ('_vorbis_window_get', 'sub:vwin[$]'):
+    ('_vorbis_window_get', 'sub:vwin'):
         'n = b->window[W]-hs with window[W] = ilog(blocksize)-7 in [0,7]; hs is 1 only if vorbis_synthesis_halfrate accepted it, '
         'which it refuses for blocksizes[0] <= 64 (R02.3 halfrate-refused-for-64-sample-blocks), so window[W] >= 1 then',
-    ('floor1_inverse2', 'sub:<<$>.vi>.postlist[<<$>.forward_index[$]>]'): _QSORT,
-    ('floor1_look', 'sub:<calloc(1,1328)>.reverse_index[<calloc(1,1328)>.forward_index[$]]'): _QSORT,
-    ('floor1_look', 'sub:<$>.postlist[<calloc(1,1328)>.forward_index[$]]'): _QSORT,
-    ('render_line', 'div:(<($-$)>/<($-$)>)'): _ADX,
-    ('render_point', 'div:(<(<abs($)>*($-$))>/<($-$)>)'): _ADX,
-    ('render_line', 'sub:FLOOR1_fromdB_LOOKUP[$]#1'):
+    ('floor1_inverse2', 'sub:.postlist'): _QSORT,
+    ('floor1_look', 'sub:.reverse_index'): _QSORT,
+    ('floor1_look', 'sub:.postlist'): _QSORT,
+    ('render_line', 'div:<($-$)>'): _ADX,
+    ('render_point', 'div:<($-$)>'): _ADX,
+    ('render_line', 'sub:FLOOR1_fromdB_LOOKUP'):
         'Bresenham lemma: with x1 > x0 the rendered y stays in the hull of y0 and y1, both clamped to [0,255] by floor1_inverse2 '
         '(R02.3 render_line-y0/y1-clamped)',
-    ('vorbis_book_decodevs_add', 'div:($/.dim)'):
+    ('vorbis_book_decodevs_add', 'div:.dim'):
         'reached only through _01inverse with a residue stage book; res0_unpack rejects stage books with dim < 1 '
         '(R02.3 res0_unpack:stage-books:dim>=1)',
     ('vorbis_book_decodevs_add', 'alloca:__builtin_alloca((8*<($/.dim)>))'):
         'step = n/dim <= n = samples_per_partition; _01inverse calls the stage decoder only when partvals = (end-begin)/'
         'samples_per_partition >= 1 with end clipped to pcmend/2 <= 4096 (R02.3 residue-end-clipped), so step <= 4096: 32 KiB',
-    ('vorbis_book_decodevs_add', 'alloca:__builtin_alloca((8*<($/.dim)>))#1'):
-        'as the first scratch vector of this function: step <= 4096, 32 KiB',
     ('vorbis_comment_add_tag', 'alloc:malloc(((strlen($)+strlen($))+2))'): _STR,
     ('vorbis_comment_query', 'alloc:malloc((<(strlen($)+1)>+1))'): _STR,
     ('vorbis_comment_query_count', 'alloc:malloc((<(strlen($)+1)>+1))'): _STR,
